@@ -494,10 +494,8 @@ func (pl *pool) checkRetire(rule string, want func(field string) bool) {
 				if rng == nil || !isLoadOf(rng.X, field) {
 					continue
 				}
-				isV := func(v ssa.Value) bool {
-					e, ok := stripConv(v).(*ssa.Extract)
-					return ok && e.Tuple == nx && e.Index == 2
-				}
+				// the entry's value: the scan's value, or the table read under the scan's key
+				isV := (&rangeLoop{Next: nx, Range: rng}).val
 				rcs := newCondSpace(pl.uscs, recOf(eqAtom("isOld", isV, isOld)), "isOld")
 				if imp, _ := rcs.Implies(rcs.Reach(a.Instr), rcs.Atom("isOld")); imp && rcs.Seen("isOld") {
 					// and every entry with value old is handled: the loop body reaches this update whenever value == old
